@@ -1,3 +1,5 @@
+#include <set>
+#include <algorithm>
 // Other probe request kinds: manifest dump, build-log / deps-log op interpreters, cleaner, small pure functions.
 #pragma once
 #include "probe_sim.h"
@@ -23,6 +25,16 @@ static json DumpState(State& state) {
   json edges = json::array();
   const char* keys[] = {"command", "description", "depfile", "deps", "dyndep", "generator", "restat", "rspfile",
                         "rspfile_content", "msvc_deps_prefix", "pool"};
+  // reverse direction of the symmetry check: every edge a node lists as consumer must have that node as an input, every
+  // edge it lists as validation requester must name it as a validation
+  std::set<Edge*> dangling;
+  for (auto& kv : state.paths_) {
+    Node* n = kv.second;
+    for (Edge* oe : n->out_edges())
+      if (std::find(oe->inputs_.begin(), oe->inputs_.end(), n) == oe->inputs_.end()) dangling.insert(oe);
+    for (Edge* oe : n->validation_out_edges())
+      if (std::find(oe->validations_.begin(), oe->validations_.end(), n) == oe->validations_.end()) dangling.insert(oe);
+  }
   for (Edge* e : state.edges_) {
     json je;
     je["rule"] = e->rule().name();
@@ -44,6 +56,7 @@ static json DumpState(State& state) {
     je["dyndep_node"] = e->dyndep_ ? json(e->dyndep_->path()) : json(nullptr);
     // graph symmetry: every output's in_edge is e; every input lists e among out_edges
     bool sym = true;
+    if (dangling.count(e)) sym = false;   // some node lists e as a consumer although e does not have it as an input
     for (Node* o : e->outputs_) if (o->in_edge() != e) sym = false;
     for (Node* i : e->inputs_) { bool f = false; for (Edge* oe : i->out_edges()) if (oe == e) f = true; if (!f) sym = false; }
     for (Node* v : e->validations_) { bool f = false; for (Edge* oe : v->validation_out_edges()) if (oe == e) f = true; if (!f) sym = false; }
